@@ -144,13 +144,21 @@ class Slice:
         elif isinstance(t, ast.Starred):
             self._assign(t.value, value, node, cu, extra)
 
-    def closure(self, seeds):
-        """All names / attribute chains the seeds depend on (data and control)."""
+    def last_def_line(self, name):
+        ls = [getattr(node, 'end_lineno', node.lineno) for tgt, u, ctl, node in self.events if tgt == name]
+        return max(ls) if ls else None
+
+    def closure(self, seeds, before=None):
+        """All names / attribute chains the seeds depend on (data and control).  With `before`, only
+        definitions at or before that source line are considered (sound when the program point is not inside
+        a loop that also contains later definitions)."""
         R = set(seeds)
         changed = True
         while changed:
             changed = False
             for tgt, u, ctl, node in self.events:
+                if before is not None and node.lineno > before:
+                    continue
                 hit = tgt in R or any(r == tgt or r.startswith(tgt + '.') or tgt.startswith(r + '.') for r in R if '.' in r or '.' in tgt)
                 if hit:
                     new = (u | ctl) - R
